@@ -3,8 +3,10 @@ package main
 // hm: histories in which a share of the frames is truncated or corrupted. The model does not predict
 // what a damaged message leaves behind; the check is purely differential: the run with one shared,
 // scribbled receive buffer and the run with private buffers must produce the same full transcript
-// (whatever was retained from a partially accepted packet must be a copy), and a frame that Parse
-// rejects must leave every table as it was. Observation "T" (model: "T") or "F@<step>".
+// (whatever was retained from a partially accepted or rejected packet must be a copy).
+// Observation "T" (model: "T") or "F@<step>". Whether a frame rejected by Parse changed the tables is
+// counted as a statistic only: C10 is about aliasing, and a host created (as a copy) from the IP header of
+// a frame whose transport header is then rejected contradicts neither C10 nor C04.
 
 import (
 	"fmt"
